@@ -1,9 +1,13 @@
 import Driver.Common
 import Driver.C15
+import Driver.GTreeIO
 /-! `geosdrv <stream>`: reads one case per line on stdin, writes the model's answer per line. -/
 def handlers : List (String × (String → String)) :=
   [ ("strtree", Driver.C15.history),
-    ("strslices", Driver.C15.slices) ]
+    ("strslices", Driver.C15.slices),
+    ("gtree-echo", fun l => match Driver.GTreeIO.parseGeom (Driver.tokens l) with
+        | some (g, []) => Driver.GTreeIO.showGeom g
+        | _ => "parse-error") ]
 
 def main (args : List String) : IO UInt32 := do
   match args with
